@@ -19,8 +19,8 @@ from engine import httpframing as H
 from engine.gen import http as G
 from engine.runner import Ctx
 
-BATCH_RUNS = 120000        # flush when this many runs are pending
-BATCH_GROUPS = 1500
+BATCH_GROUPS = 1500         # groups per TLC invocation (runs are merged into distinct outcomes, so their
+                            # number does not matter for the size of a batch)
 
 
 class _Acc:
@@ -35,7 +35,7 @@ class _Acc:
         self.groups.append(g)
         self.runs += g.nruns
         self.hist[len(g.order)] = self.hist.get(len(g.order), 0) + 1
-        if self.runs >= BATCH_RUNS or len(self.groups) >= BATCH_GROUPS:
+        if len(self.groups) >= BATCH_GROUPS:
             self.flush("segmentations")
 
     def flush(self, label: str) -> None:
@@ -67,7 +67,7 @@ def _segmentations(ctx: Ctx, g: H.Group, rng: Any, pairs: bool) -> None:
     g.parse(G.byte_at_a_time(n))
     for k in (2, 3, 5, 8):
         g.parse(G.random_cuts(rng, n, k))
-    if pairs and n <= 110:
+    if pairs and n <= 90:
         for cs in G.pair_cuts(n):
             g.parse(cs)
 
@@ -95,7 +95,7 @@ def run(ctx: Ctx) -> None:
     acc = _Acc(ctx)
     names = list(H.LIMIT_CONFIGS)
     pairs = not ctx.quick
-    n_valid = ctx.pick(36, 150)
+    n_valid = ctx.pick(36, 100)
     per_class = ctx.pick(2, 5)
     # ---- 2. requests
     k = 0
@@ -107,7 +107,7 @@ def run(ctx: Ctx) -> None:
         for cn in cfgs:
             lim = H.LIMIT_CONFIGS[cn]
             g = H.Group("request", data, lim, src=src, label=f"{label} [{cn}]")
-            _segmentations(ctx, g, rng, pairs and src != "bytes")
+            _segmentations(ctx, g, rng, pairs and (src == "valid" or k % 3 == 0))
             if conn_left > 0 and len(data) <= 220 and lim.limit > 16 and (src == "valid" or k % 9 == 0):
                 conn_left -= 1
                 h = conn_h.get(cn) or conn_h.setdefault(cn, H.ConnHarness(lim))
@@ -124,7 +124,7 @@ def run(ctx: Ctx) -> None:
         for cn in cfgs:
             lim = H.LIMIT_CONFIGS[cn]
             g = H.Group("response", data, lim, src=src, label=f"{label} [{cn}]", **opts)
-            _segmentations(ctx, g, rng, pairs and src != "bytes")
+            _segmentations(ctx, g, rng, pairs and (src == "valid" or k % 3 == 0))
             if k % 10 == 0 and lim.limit > 16 and len(data) <= 300:
                 g.client([])
                 for c in range(1, len(data), 5):
